@@ -500,6 +500,7 @@ func signPat(v uint64, xlen int) string {
 }
 
 func TestC01(t *testing.T) {
+	runWitnesses(t, "C01")
 	col := ev.New("C01", "rapid: configuration (RV32/RV64 x {-,M,A,MA}) x mnemonic drawn uniformly from an independent "+
 		"reference table x operand fields biased to {x0, same register in several roles, distinct} and immediates "+
 		"{0,+-1,min,max,small,random}, all shift amounts, CSR numbers incl. 0x7ff/0x800/0xfff x instruction address in "+
